@@ -65,6 +65,15 @@ def run(ctx):
             src = any(og[0] == "call" and callee(og[2]).endswith("VecDeque::pop_front") for pl in pls for og in b.trace_local(pl[0]))
             ok2 = ok2 and src
         ctx.ob("R2", "%s|the frame carries the popped datagram" % b.short, ok2 and bool(dumps), b.where(), "payload of each dump derives from pop_front(): %s" % ok2)
+    if b:
+        # the no-length form extends to the end of the packet: any filler must be written *before* the frame
+        pads = call_blocks(b, r"BufMut::put_bytes$|buf_mut::BufMut::put_bytes$")
+        dumps_ = call_blocks(b, r"Package<.*>>::dump$|io::Package::dump$")
+        bad = [(p_, d_) for p_ in pads for d_ in dumps_ if p_ in b.reachable_from(d_) and not b.dominates(p_, d_)]
+        after_only = [p_ for p_ in pads if any(p_ in b.reachable_from(d_) for d_ in dumps_)]
+        ctx.ob("R2", "%s|padding precedes the no-length frame" % b.short, bool(pads) and not after_only, b.where(),
+               "filler writes %s, frame dumps %s; filler written after a frame: %s — a DATAGRAM frame without length runs to "
+               "the end of the packet, so bytes written after it are delivered to the peer as payload" % (pads, dumps_, after_only or "none"))
     # ---------------------------------------------------------------- R3
     sb = ctx.anchor("R3", "qdatagram::writer::DatagramWriter::send_bytes")
     if sb:
